@@ -18,7 +18,7 @@ CHECKS = {
     "C10": ("exploration", "3.C10", "Seeded key histories over a vocabulary of mapped functions (stateless, stateful, key-consuming, self-scheduling, failing, two multiplexed dictionaries, broadcast) drive the real map_ node; the output dictionary after every tick is compared with a key-set model built from per-key solo reference instances, errors must appear under the failing key only, and child start/stop hooks must pair with key add/remove. Seeded sampling."),
     "C11": ("exploration", "3.C11", "Seeded element histories over TSD and fixed TSL with operator, node and sub-graph combiners, with and without a non-identity zero; the result is probed in every engine cycle and compared with the fold over exactly the valid elements; every history is also run with its same-cycle operations permuted. Seeded sampling."),
     "C12": ("exploration", "3.C12", "Seeded key and input histories (rapid flips, flip together with an input tick, return to an earlier key, unmatched key) over a branch vocabulary; the output stream is compared with the concatenation of fresh solo reference instances of the selected branches, and every selection must start a new child graph instance. Seeded sampling."),
-    "C13": ("exploration", "3.C13", "Two scripted targets and a scripted selector feed if_then_else over scalar, bundle, set and dictionary shapes; the result is read directly, below a nested pass-through and from an if_then_else inside a nested graph. A model of the sampled-rebind semantics decides for every cycle whether each consumer must (not) be evaluated and what value and delta it must read. Seeded sampling of relative timings."),
+    "C13": ("exploration", "3.C13", "Two scripted targets and a scripted selector feed if_then_else over scalar, bundle, set and dictionary shapes; the result is read directly, below a nested pass-through, from an if_then_else inside a nested graph, and through the same selection made by switch_ (direct and reference-shaped branch terminals). A model of the sampled-rebind semantics decides for every cycle whether each consumer must (not) be evaluated and what value and delta it must read. Seeded sampling of relative timings."),
     "C14": ("fault_enumeration", "3.C14", "For each seeded program every single fault point (node x phase x occurrence<=3) is injected in its own run, plus seeded fault pairs, under cleanup_on_error on/off and request_stop; the complete lifecycle-observer history of each run is checked against start/stop pairing, order, exactly-once, no-evaluation-outside-lifetime, rollback and error-identity invariants. Exhaustive over single fault points per program; programs and pairs are sampled."),
     "C15": ("fault_enumeration", "3.C15", "For each seeded program with error capture (exception_time_series / try_except_) every subset of the capturing node's evaluation cycles (complete up to 5 evaluations) is made to throw; each run is compared with the fault-free run (independent streams unchanged), with the error-tick count/message rule and with the reference interpreter under the same fault plan; a quarter of the runs are keyed maps (exception_time_series over map_, per-key solo reference, error under the failing key only). Exhaustive over cycle subsets for small targets; programs are sampled."),
     "C16": ("exploration", "3.C16", "The real push-source node, sender and real-time executor run on simulated threads: a seeded scheduler chooses the running thread at every intercepted pthread mutex/condition-variable call, advances a simulated clock and injects stalls, spurious and late wake-ups, starvation and stop races. The recorded invoke/return/deliver history is checked for FIFO linearizability, exactly-once, capacity, justified refusals, bounded liveness and lost wake-ups (a forced time-out of the engine's wait while work is pending). Seeded sampling of interleavings (distinct decision-list hashes are counted), not enumeration."),
